@@ -1,0 +1,257 @@
+//go:build verif
+
+package go_clipper2
+
+import (
+	"fmt"
+	"runtime"
+	"sync/atomic"
+)
+
+// Verification hooks (build tag "verif"). Everything in this file is inert
+// unless a monitor switches it on for one engine object; there is no shared
+// mutable state except two atomics (step budget, yield switch).
+
+// VerifEvent is recorded at the places that intentionally discard or re-route
+// geometry (edge joins, self-intersection repair, spike removal, error flag).
+type VerifEvent struct {
+	Site string
+	Pt   Point64
+	// E1/E2: bot,top of the two edges involved (joins); for split/clean sites
+	// the neighbouring output points.
+	E1Bot, E1Top, E2Bot, E2Top Point64
+	Last1, Last2               Point64 // last output point of each edge's ring
+	CheckCurrX                 bool
+	Area1, Area2               float64
+}
+
+// VerifRecorder collects counters and (optionally) events for one engine.
+type VerifRecorder struct {
+	Counts     map[string]int64
+	Events     []VerifEvent
+	KeepEvents bool
+	MaxEvents  int
+}
+
+func NewVerifRecorder(keepEvents bool) *VerifRecorder {
+	return &VerifRecorder{Counts: map[string]int64{}, KeepEvents: keepEvents, MaxEvents: 4096}
+}
+
+type verifState struct {
+	rec           *VerifRecorder
+	ticks         int64
+	noJoin        bool
+	noSplitRepair bool
+}
+
+// VerifStepBudget is the sentinel panic raised when a loop that relies on an
+// invariant to terminate exceeds the logical step budget.
+type VerifStepBudget struct{ Loop string }
+
+func (v VerifStepBudget) Error() string { return "verif: step budget exceeded in " + v.Loop }
+
+var verifBudget atomic.Int64
+var verifYieldEvery atomic.Int64
+
+func init() { verifBudget.Store(1 << 27) }
+
+// VerifSetStepBudget sets the per-call logical step budget (process wide).
+func VerifSetStepBudget(n int64) { verifBudget.Store(n) }
+
+// VerifSetYieldEvery makes every n-th loop tick call runtime.Gosched (0 = off).
+func VerifSetYieldEvery(n int64) { verifYieldEvery.Store(n) }
+
+func verifTickN(t *int64, loop string) {
+	*t++
+	if y := verifYieldEvery.Load(); y > 0 && *t%y == 0 {
+		runtime.Gosched()
+	}
+	if *t > verifBudget.Load() {
+		panic(VerifStepBudget{Loop: loop})
+	}
+}
+
+func (v *verifState) tick(loop string) { verifTickN(&v.ticks, loop) }
+func (v *verifState) resetTicks()      { v.ticks = 0 }
+
+func (v *verifState) count(site string) {
+	if v.rec != nil {
+		v.rec.Counts[site]++
+	}
+}
+
+func (v *verifState) event(ev VerifEvent) {
+	if v.rec == nil {
+		return
+	}
+	v.rec.Counts[ev.Site]++
+	if v.rec.KeepEvents && len(v.rec.Events) < v.rec.MaxEvents {
+		v.rec.Events = append(v.rec.Events, ev)
+	}
+}
+
+func (v *verifState) skipJoin() bool        { return v.noJoin }
+func (v *verifState) skipSplitRepair() bool { return v.noSplitRepair }
+
+func verifLastPt(e *Active) Point64 {
+	if e == nil || e.outrec == nil || e.outrec.pts == nil {
+		return Point64{}
+	}
+	if op := getLastOp(e); op != nil {
+		return op.pt
+	}
+	return Point64{}
+}
+
+func (v *verifState) joinEvent(site string, e, other *Active, pt Point64, checkCurrX bool) {
+	if v.rec == nil {
+		return
+	}
+	v.event(VerifEvent{Site: site, Pt: pt, E1Bot: e.bot, E1Top: e.top, E2Bot: other.bot, E2Top: other.top,
+		Last1: verifLastPt(e), Last2: verifLastPt(other), CheckCurrX: checkCurrX})
+}
+
+func (v *verifState) opEvent(site string, op *OutPt, a1, a2 float64) {
+	if v.rec == nil {
+		return
+	}
+	ev := VerifEvent{Site: site, Area1: a1, Area2: a2}
+	if op != nil {
+		ev.Pt = op.pt
+		if op.prev != nil {
+			ev.E1Bot = op.prev.pt
+		}
+		if op.next != nil {
+			ev.E1Top = op.next.pt
+			if op.next.next != nil {
+				ev.E2Top = op.next.next.pt
+			}
+		}
+	}
+	v.event(ev)
+}
+
+// verifTicker is the tick counter for package-level functions.
+type verifTicker struct{ n int64 }
+
+func (t *verifTicker) tick(loop string) { verifTickN(&t.n, loop) }
+
+// --- engine accessors -------------------------------------------------------
+
+// VerifRecord attaches a recorder to this engine (nil detaches).
+func (c *clipperBase) VerifRecord(rec *VerifRecorder) { c.vs.rec = rec }
+
+// VerifSetOptions reaches the two options only ClipperOffset can set today.
+func (c *clipperBase) VerifSetOptions(preserveCollinear, reverseSolution bool) {
+	c.preserveCollinear = preserveCollinear
+	c.reverseSolution = reverseSolution
+}
+
+// VerifSetSwitches: counterfactual switches used only for attribution.
+func (c *clipperBase) VerifSetSwitches(noJoin, noSplitRepair bool) {
+	c.vs.noJoin = noJoin
+	c.vs.noSplitRepair = noSplitRepair
+}
+
+// VerifScratchState is the per-object scratch state that must be empty
+// between executions.
+type VerifScratchState struct {
+	Scanlines, Outrecs, HorzSegs, HorzJoins, Intersects int
+	ActivesNil, SelNil                                  bool
+	UsingPolyTree, HasOpenPaths, Succeeded              bool
+	Minima, Vertices                                    int
+}
+
+func (c *clipperBase) VerifScratch() VerifScratchState {
+	return VerifScratchState{
+		Scanlines: len(c.scanlineList), Outrecs: len(c.outrecList), HorzSegs: len(c.horzSegList),
+		HorzJoins: len(c.horzJoinList), Intersects: len(c.intersectList),
+		ActivesNil: c.actives == nil, SelNil: c.sel == nil,
+		UsingPolyTree: c.usingPolyTree, HasOpenPaths: c.hasOpenPaths, Succeeded: c.succeeded,
+		Minima: len(c.minimaList), Vertices: len(c.vertexList),
+	}
+}
+
+// --- predicate aliases -------------------------------------------------------
+
+func VerifIsCollinear(a, b, c Point64) bool       { return isCollinear(a, b, c) }
+func VerifProductsAreEqual(a, b, c, d int64) bool { return productsAreEqual(a, b, c, d) }
+func VerifTriSign(x int64) int                    { return triSign(x) }
+func VerifMultiplyUInt64(a, b uint64) (lo, hi uint64) {
+	r := multiplyUInt64(a, b)
+	return r.Lo64, r.Hi64
+}
+func VerifSegsIntersect(a, b, c, d Point64, incl bool) bool { return segsIntersect(a, b, c, d, incl) }
+func VerifGetSegmentIntersectPt(a, b, c, d Point64) (Point64, bool) {
+	return getSegmentIntersectPt(a, b, c, d)
+}
+func VerifGetClosestPtOnSegment(p, a, b Point64) Point64 { return getClosestPtOnSegment(p, a, b) }
+func VerifDotProduct64(a, b, c Point64) float64          { return dotProduct64(a, b, c) }
+func VerifGetBounds(p Path64) Rect64                     { return getBounds(p) }
+func VerifRectFields(r Rect64) (l, t, rr, b int64)       { return r.left, r.top, r.right, r.bottom }
+func VerifRectDFields(r RectD) (l, t, rr, b float64)     { return r.left, r.top, r.right, r.bottom }
+func VerifTopX(bot, top Point64, y int64) int64 {
+	ae := &Active{bot: bot, top: top}
+	setDx(ae)
+	return topX(ae, y)
+}
+
+// --- offset / rect-clip accessors -------------------------------------------
+
+type verifOffsetState struct {
+	rec *VerifRecorder
+}
+
+func (co *ClipperOffset) VerifRecord(rec *VerifRecorder) { co.vs.rec = rec }
+func (co *ClipperOffset) VerifGroupCount() int           { return len(co.groupList) }
+
+func (v *verifOffsetState) capEvent(co *ClipperOffset, path Path64, idx int, localDelta float64) {
+	if v.rec == nil {
+		return
+	}
+	site := "cap_built"
+	if absF(localDelta) < Tolerance && absF(co.groupDelta) >= Tolerance {
+		site = "cap_skipped"
+	}
+	v.rec.Counts[site]++
+	if v.rec.KeepEvents && len(v.rec.Events) < v.rec.MaxEvents {
+		v.rec.Events = append(v.rec.Events, VerifEvent{Site: site, Pt: path[idx], Area1: co.groupDelta, Area2: localDelta})
+	}
+}
+
+func (v *verifOffsetState) groupEvent(co *ClipperOffset, group *Group) {
+	if v.rec == nil {
+		return
+	}
+	v.rec.Counts["group"]++
+	if group.pathsReversed {
+		v.rec.Counts["group_reversed"]++
+	}
+	if v.rec.KeepEvents && len(v.rec.Events) < v.rec.MaxEvents {
+		v.rec.Events = append(v.rec.Events, VerifEvent{Site: "group", Area1: co.groupDelta, Area2: co.delta})
+	}
+}
+
+func absF(x float64) float64 {
+	if x < 0 {
+		return -x
+	}
+	return x
+}
+
+// VerifRectClipState exposes the per-object scratch state of a RectClip64.
+func (r *RectClip64) VerifScratch() (results int, edges int) {
+	for _, e := range r.edges {
+		edges += len(e)
+	}
+	return len(r.results), edges
+}
+
+func (r *RectClip64) verifTick(loop string) { verifTickN(&r.vt, loop) }
+func (r *RectClip64) verifResetTicks()      { r.vt = 0 }
+
+type verifRectState = int64
+
+func (v VerifEvent) String() string {
+	return fmt.Sprintf("%s pt=%v e1=%v-%v e2=%v-%v last=%v,%v cx=%v a=%g,%g", v.Site, v.Pt, v.E1Bot, v.E1Top, v.E2Bot, v.E2Top, v.Last1, v.Last2, v.CheckCurrX, v.Area1, v.Area2)
+}
